@@ -550,10 +550,10 @@ func vtC13GenPod(r vtC13Rand, shape int, qos, class string, prioPresent bool, pr
 	} else {
 		out = append(out, 0)
 	}
-	switch r.Intn(12) {
+	switch r.Intn(30) {
 	case 0:
 		out = append(out, 1)
-	case 1, 2:
+	case 1, 2, 3, 4, 5:
 		n := r.Intn(3)
 		out = append(out, 2, int64(n))
 		for i := 0; i < n; i++ {
